@@ -14,6 +14,8 @@ declare -A CHECKS=(
  [C01e]="C01 C15" [C01f]="C01 C10" [C02e]="C02 C15" [C02f]="C02 C12" [C03e]="C03 C15" [C03f]="C03" [C04e]="C04 C15" [C04f]="C04"
  [C09e]="C09" [C09f]="C09" [C10e]="C10" [C10f]="C10 C01" [C12e]="C12 C10" [C12f]="C12 C03" [C13e]="C13 C15" [C13f]="C13"
  [C16e]="C16" [C16f]="C16" [C16g]="C16" [C16h]="C16"
+ [C06e]="C11 C06" [C06f]="C06 C10" [C07e]="C07 C15" [C07f]="C07" [C08e]="C08 C15" [C08f]="C08" [C11e]="C11 C15" [C11f]="C11"
+ [C14e]="C14 C15" [C14f]="C14 C09" [C15e]="C15 C03" [C15f]="C15 C11" [C17e]="C17 C10" [C17f]="C17" [C18e]="C18" [C18f]="C18" [C05e]="C05" [C05f]="C05"
  [C13c]="C13" [C13d]="C13" [C14c]="C14" [C14d]="C14 C07" [C15c]="C15" [C15d]="C15" [C16c]="C16" [C16d]="C16"
 )
 for s in "$@"; do
@@ -40,7 +42,8 @@ for c in checks:
         case = re.search(r'case: (.*)', body); what = re.search(r'what: (.*)', body)
         det[c] = {'exit': code, 'first_case': case.group(1)[:200] if case else '', 'what': what.group(1)[:240] if what else ''}
 readme = open(f'/verif/seeded/{s}/README.md').read() if __import__('os').path.exists(f'/verif/seeded/{s}/README.md') else ''
-meta = {'id': s, 'breaks_property': s[:3], 'source': 'independent sub-agent given only the property text and a scratch worktree of /repo' + (' (second round: asked for cooperating sites, state leaks, rare arithmetic, feature interactions, interleavings; told which first-round changes to avoid)' if s[3] in 'cdefgh' else ''),
+OVERRIDE = {'C06e': 'C11 (written against C06, which it does not violate as stated; it drops the colour scheme)', 'C15f': 'C15 (and C11)'}
+meta = {'id': s, 'breaks_property': OVERRIDE.get(s, s[:3]), 'source': 'independent sub-agent given only the property text and a scratch worktree of /repo' + (' (second round: asked for cooperating sites, state leaks, rare arithmetic, feature interactions, interleavings; told which first-round changes to avoid)' if s[3] in 'cdefgh' else ''),
         'confirmed': {'patch_applies_to_HEAD': True, 'existing_suite_passes_with_change': suite_ok, 'demo_passes_on_clean_tree': clean, 'demo_fails_with_change': demo_fails},
         'what_i_ran': 'tools/try_seed.sh (scratch worktree: go build ./..., go test -count=1 ./..., the demo with and without the change; then ./check.sh <ID> --tier quick with VERIF_REPO=<worktree>)',
         'checks_run': det,
